@@ -584,6 +584,19 @@ class Exec:
             if op == "BitOr":
                 return BoolV("(or %s %s)" % (a.term, b.term))
         if not (isinstance(a, IntV) and isinstance(b, IntV)):
+            if getattr(self, "havoc_unknown", False) and (isinstance(a, OpaqueV) or isinstance(b, OpaqueV)):
+                # an opaque scalar operand: one arbitrary integer per identity (see switchInt)
+                memo = self.__dict__.setdefault("_opaque_ints", {})
+
+                def as_int(v, other):
+                    if isinstance(v, OpaqueV):
+                        if v.what not in memo:
+                            memo[v.what] = self.ctx.fresh_int("opaque_scalar", other.ty if isinstance(other, IntV) else "i64")
+                        return memo[v.what]
+                    return v
+                a2, b2 = as_int(a, b), as_int(b, a)
+                if isinstance(a2, IntV) and isinstance(b2, IntV):
+                    return self.binop(op, a2, b2, fn)
             raise EncodingError("binop %s on %r, %r in %s" % (op, a, b, fn.name))
         ty = a.ty
         cmp_ops = {"Eq": "=", "Lt": "<", "Le": "<=", "Gt": ">", "Ge": ">="}
@@ -948,6 +961,10 @@ class Exec:
             if isinstance(tgt, LocV):
                 self.heap[tgt.oid][tgt.k] = val
             # other writes through a reference: not tracked (only formatter state etc.)
+            return
+        if getattr(self, "havoc_unknown", False) and re.match(r"^\(+\*_\d+\)", place):
+            # a write through a raw/opaque pointer into memory this encoding does not track (e.g. the
+            # freshly allocated buffer behind `vec![..]`): in havoc mode that memory is opaque anyway
             return
         raise EncodingError("cannot assign to place %r in %s" % (place, fn.name))
 
